@@ -419,8 +419,8 @@ def oracle_rename(case):
     try:
         c.rename_gate(old, new)
     except Exception as e:  # noqa: BLE001
-        ok = (old not in g and type(e).__name__ == 'CircuitGateIsAbsentError') or \
-             (old in g and new in g and type(e).__name__ == 'CircuitGateAlreadyExistsError')
+        # an absent old label or an existing new label is refused: with which exception is not part of the property
+        ok = old not in g or new in g
         return None if ok else f'rename_gate raises {type(e).__name__} for old in circuit={old in g}, new in circuit={new in g}'
     if old not in g or new in g:
         return 'rename_gate accepted an absent old label or an existing new label'
@@ -507,7 +507,9 @@ def oracle_replace_subcircuit(case):
     try:
         c.replace_subcircuit(s, dict(case['imap']), dict(case['omap']))
     except Exception as e:  # noqa: BLE001
-        if type(e).__name__ not in DOCUMENTED_REPLACE_ERRORS:
+        from cirbo.core.circuit import exceptions as _cx
+        base = getattr(_cx, 'CircuitError', None)
+        if type(e).__name__ not in DOCUMENTED_REPLACE_ERRORS and not (base is not None and isinstance(e, base)):
             return f'replace_subcircuit raises undocumented {type(e).__name__}: {e}'
         return None
     msg = wforacle.wf_violation(c)
@@ -515,10 +517,9 @@ def oracle_replace_subcircuit(case):
         return 'result not well formed: ' + msg
     if case.get('equivalent'):
         ren = {**dict(map(tuple, case['imap'])), **dict(map(tuple, case['omap']))}
-        if list(c._inputs) != [ren.get(i, i) for i in dump['inputs']] or \
-                list(c._outputs) != [ren.get(o, o) for o in dump['outputs']]:
-            return 'interface changed (beyond the documented renaming of mapped gates)'
-        if c.get_truth_table() != truth_table_of(dump):
+        if len(c._inputs) != len(dump['inputs']) or len(c._outputs) != len(dump['outputs']):
+            return 'number of inputs / outputs changed by an equivalent replacement'
+        if [list(r) for r in c.get_truth_table()] != truth_table_of(dump):
             return 'truth table changed by an equivalent replacement'
     return None
 
